@@ -550,3 +550,8 @@ LEVEL_NOTE = (LEVEL_NOTE + " Model/TzConvert.v is no longer tied to /repo by pin
               "pendulum's timezone glue from /repo on every run and the model_is_code_* theorems prove the hand model equal to it "
               "(native operations as primitives tied to CPython by the spec_is_stdlib_* theorems; from_timestamp, instance, set/on/at/replace "
               "remain hand-written + pinned).")
+
+
+# ---- model = code theorems for the arithmetic entry points (appended) ----
+TRUSTED = [t for t in TRUSTED] + ["model_is_code_datetime_add / _datetime_subtract: DateTime.add and subtract as a whole (naive, calendar-unit and fixed-unit branches) = dt_add / dt_subtract of Model/CalendarArith.v; model_is_code_datetime_dunder_add / _radd: DateTime.__add__ translated with its stack inspection (traceback.extract_stack(limit=2)[0].name == 'astimezone'; recognised shape, any other use of traceback fails closed) as the explicit boolean called_from_astimezone (True only from a frame named astimezone -> native addition; the + operator and __radd__ pass False -> _add_timedelta_). NOT translated: the plain-timedelta route add(seconds=delta.total_seconds()) (float seconds into add_duration: Model/CalendarArith.v dt_add_fsec / Model/FloatRoutes.v stay hand-written + pinned), so `dt + timedelta` inside Timezone.convert is still read as the native addition (dt a native datetime); the class of a datetime object is still not part of the object model"]
+LEVEL_NOTE = LEVEL_NOTE + " " + "model_is_code_datetime_add / _datetime_subtract: DateTime.add and subtract as a whole (naive, calendar-unit and fixed-unit branches) = dt_add / dt_subtract of Model/CalendarArith.v; model_is_code_datetime_dunder_add / _radd: DateTime.__add__ translated with its stack inspection (traceback.extract_stack(limit=2)[0].name == 'astimezone'; recognised shape, any other use of traceback fails closed) as the explicit boolean called_from_astimezone (True only from a frame named astimezone -> native addition; the + operator and __radd__ pass False -> _add_timedelta_). NOT translated: the plain-timedelta route add(seconds=delta.total_seconds()) (float seconds into add_duration: Model/CalendarArith.v dt_add_fsec / Model/FloatRoutes.v stay hand-written + pinned), so `dt + timedelta` inside Timezone.convert is still read as the native addition (dt a native datetime); the class of a datetime object is still not part of the object model" + "."
